@@ -70,7 +70,8 @@ def manifest():
 
 
 if __name__ == '__main__':
-    m = manifest()
+    from vf import registry as _r
+    m = _r.manifest()
     path = os.path.join(ROOT, 'MANIFEST.json')
     with open(path, 'w') as f:
         json.dump(m, f, indent=1)
